@@ -63,7 +63,14 @@ def _source_expr(r, model):
         return gen.value_tree(r, 2)
     te, obj = r.choice(tg)
     k = weighted(r, [('name', 6), ('lit', 3), ('slice', 1), ('values', 1), ('sorted', 0.5), ('map', 1), ('keep', 1.5),
-                     ('if', 1), ('get', 1), ('concat', 1), ('reversed', 0.5), ('items', 0.5)])
+                     ('if', 1), ('get', 1), ('concat', 1), ('reversed', 0.5), ('items', 0.5), ('pair', 1.2)])
+    if k == 'pair':
+        # a (key, value) / (index, element) pair as handed out by items() / enumerate(): a tuple holding the container's own elements
+        if isinstance(obj, dict) and obj:
+            return ['index', ['call', 'items', [te], 'plain'], ['num', '0']]
+        if isinstance(obj, list) and obj:
+            return ['index', ['call', 'enumerate', [te], 'plain'], ['num', str(r.randrange(len(obj)))]]
+        return te
     if k == 'name':
         return te
     if k == 'lit':
